@@ -1063,4 +1063,3 @@ func (h *c11Hist) checkConstructors(m prolly.Map) {
 	}
 }
 
-var _ = rig.Must
